@@ -35,7 +35,7 @@ def check(run):
             if ck in BAD and ("c11::" in (n.get("t") or "") or "c11::" in (n.get("from") or "")):
                 bad.append(n)
         down += n_down
-        run.instance(rule, f["name"][:200], (f["file"], f["line"]), ok=not bad, detail={"down_casts": n_down})
+        run.instance(rule, f["name"], (f["file"], f["line"]), ok=not bad, detail={"down_casts": n_down})
         for n in bad:
             fq = re.sub(r"<.*", "", f["name"])
             run.violation(rule, "%s|%s" % (fq, n["ck"]), "%s converts %s to %s with a %s (bit cast) instead of a derived/base or dynamic cast" % (f["name"][:160], n.get("from"), n.get("t"), n["ck"]),
@@ -108,7 +108,7 @@ def ownership_rule(run, ast):
             continue
         owners = [(_owner_of(r["c"][0], did, locals_), r) for r in rets]
         ok = all(o == "param" for o, _ in owners)
-        run.instance(rule, f["name"][:200], (f["file"], f["line"]), ok=ok)
+        run.instance(rule, f["name"], (f["file"], f["line"]), ok=ok)
         for o, r in owners:
             if o == "param":
                 continue
